@@ -283,3 +283,236 @@ Proof.
            addr_wlaws (addr_single intcs fam fld) r g f f' bc bc' fu fu' lo lo'
            (addr_single_wf intcs fam fld) (iso_addr_single g intcs fam fld) W Hwf O1 O2 Hbc S1 S2).
 Qed.
+
+(* ====================================================================== PART 2 : contexts up to the domain equality *)
+Definition seteq {A : Type} (a b : list A) : Prop := forall x, In x a <-> In x b.
+
+Lemma seteq_refl {A} (a : list A) : seteq a a.
+Proof. intros x. tauto. Qed.
+
+Record av_equiv (a b : addrval) : Prop := mkAvEquiv {
+  ave_any : av_any a = av_any b;
+  ave_no : av_no a = av_no b;
+  ave_possible : seteq (av_possible a) (av_possible b) }.
+
+(* componentwise equality of the domains' values: address values and kind / size / index sets as sets, the fee bound
+   and the flags equal *)
+Record ctx_equiv (c d : bctx) : Prop := mkCtxEquiv {
+  ce_rekeyto : av_equiv (ctx_rekeyto c) (ctx_rekeyto d);
+  ce_closeto : av_equiv (ctx_closeto c) (ctx_closeto d);
+  ce_assetcloseto : av_equiv (ctx_assetcloseto c) (ctx_assetcloseto d);
+  ce_sender : av_equiv (ctx_sender c) (ctx_sender d);
+  ce_types : seteq (ctx_transaction_types c) (ctx_transaction_types d);
+  ce_max_fee : ctx_max_fee c = ctx_max_fee d;
+  ce_max_fee_unknown : ctx_max_fee_unknown c = ctx_max_fee_unknown d;
+  ce_group_sizes : seteq (ctx_group_sizes c) (ctx_group_sizes d);
+  ce_group_indices : seteq (ctx_group_indices c) (ctx_group_indices d);
+  ce_is_gtxn : ctx_is_gtxn_context c = ctx_is_gtxn_context d }.
+
+Lemma ctx_equiv_refl c : ctx_equiv c c.
+Proof. constructor; try reflexivity; try apply seteq_refl; constructor; try reflexivity; apply seteq_refl. Qed.
+
+(* a detector predicate that reads the context only through the domains' values *)
+Definition ctx_inv (checks : bctx -> bool) : Prop := forall c d, ctx_equiv c d -> checks c = checks d.
+
+Lemma mem_any_string_seteq (y : string) (a b : list string) : seteq a b -> mem_any y a = mem_any y b.
+Proof. intros H. rewrite !mem_any_string. apply smem_seteq. exact H. Qed.
+Lemma mem_any_Z_seteq (y : Z) (a b : list Z) : seteq a b -> mem_any y a = mem_any y b.
+Proof. intros H. rewrite !mem_any_Z. apply zmem_seteq. exact H. Qed.
+
+Lemma inv_rekey_to : ctx_inv checks_rekey_to.
+Proof. intros c d E. unfold checks_rekey_to. rewrite (ave_any _ _ (ce_rekeyto c d E)). reflexivity. Qed.
+Lemma inv_can_close_account : ctx_inv checks_can_close_account.
+Proof.
+  intros c d E. unfold checks_can_close_account.
+  rewrite (ave_any _ _ (ce_closeto c d E)), (mem_any_string_seteq "Pay" _ _ (ce_types c d E)). reflexivity.
+Qed.
+Lemma inv_can_close_asset : ctx_inv checks_can_close_asset.
+Proof.
+  intros c d E. unfold checks_can_close_asset.
+  rewrite (ave_any _ _ (ce_assetcloseto c d E)), (mem_any_string_seteq "Axfer" _ _ (ce_types c d E)). reflexivity.
+Qed.
+Lemma inv_missing_fee_check : ctx_inv checks_missing_fee_check.
+Proof.
+  intros c d E. unfold checks_missing_fee_check.
+  rewrite (ce_max_fee c d E), (ce_max_fee_unknown c d E). reflexivity.
+Qed.
+Lemma inv_is_updatable : ctx_inv checks_is_updatable.
+Proof.
+  intros c d E. unfold checks_is_updatable.
+  rewrite (mem_any_string_seteq "ApplUpdateApplication" _ _ (ce_types c d E)). reflexivity.
+Qed.
+Lemma inv_is_deletable : ctx_inv checks_is_deletable.
+Proof.
+  intros c d E. unfold checks_is_deletable.
+  rewrite (mem_any_string_seteq "ApplDeleteApplication" _ _ (ce_types c d E)). reflexivity.
+Qed.
+Lemma inv_unprotected_updatable : ctx_inv checks_unprotected_updatable.
+Proof.
+  intros c d E. unfold checks_unprotected_updatable.
+  rewrite (ave_any _ _ (ce_sender c d E)), (mem_any_string_seteq "ApplUpdateApplication" _ _ (ce_types c d E)).
+  reflexivity.
+Qed.
+Lemma inv_unprotected_deletable : ctx_inv checks_unprotected_deletable.
+Proof.
+  intros c d E. unfold checks_unprotected_deletable.
+  rewrite (ave_any _ _ (ce_sender c d E)), (mem_any_string_seteq "ApplDeleteApplication" _ _ (ce_types c d E)).
+  reflexivity.
+Qed.
+Lemma inv_group_size_check : ctx_inv checks_group_size_check.
+Proof.
+  intros c d E. unfold checks_group_size_check.
+  rewrite (ce_is_gtxn c d E), (mem_any_Z_seteq _ _ _ (ce_group_sizes c d E)). reflexivity.
+Qed.
+
+(* all nine predicates of Detect.detectors (the names of Gen/Leaves.detector_table) *)
+Theorem detectors_ctx_inv name checks : In (name, checks) detectors -> ctx_inv checks.
+Proof.
+  unfold detectors. cbn [In]. intros H.
+  repeat (destruct H as [H|H]; [inversion H; subst checks;
+    first [exact inv_rekey_to|exact inv_can_close_account|exact inv_can_close_asset|exact inv_missing_fee_check
+          |exact inv_is_updatable|exact inv_is_deletable|exact inv_unprotected_updatable
+          |exact inv_unprotected_deletable|exact inv_group_size_check]|]).
+  destruct H.
+Qed.
+
+Lemma detectors_names : map fst detectors = map fst detector_table.
+Proof. reflexivity. Qed.
+
+(* ---------------------------------------------------------------- results up to the domain equality *)
+Definition fam_equiv {K T : Type} (teq : T -> T -> bool) (l1 l2 : list (K * list (nat * T))) : Prop :=
+  Forall2 (fun kv kv' => fst kv = fst kv' /\ SolverLemmas.peq T teq (snd kv) (snd kv')) l1 l2.
+
+Record res_equiv (a b : fn_result) : Prop := mkResEquiv {
+  re_sizes : SolverLemmas.peq (list Z) zset_eqb (r_sizes a) (r_sizes b);
+  re_indices : SolverLemmas.peq (list Z) zset_eqb (r_indices a) (r_indices b);
+  re_types : fam_equiv lset_eqb (r_types a) (r_types b);
+  re_addrs : fam_equiv sset_seteqb (r_addrs a) (r_addrs b);
+  re_fees : fam_equiv feeval_eqb (r_fees a) (r_fees b) }.
+
+Lemma find_fam {K S : Type} (R : S -> S -> Prop) (q : K * S -> bool) l1 l2 :
+  (forall kv kv', fst kv = fst kv' -> q kv = q kv') ->
+  Forall2 (fun kv kv' => fst kv = fst kv' /\ R (snd kv) (snd kv')) l1 l2 ->
+  match find q l1, find q l2 with
+  | Some kv, Some kv' => R (snd kv) (snd kv')
+  | None, None => True
+  | _, _ => False
+  end.
+Proof.
+  intros Hq H. induction H as [|kv kv' l1 l2 [Hk HR] _ IH]; [exact I|].
+  cbn [find]. rewrite (Hq kv kv' Hk). destruct (q kv'); [exact HR|exact IH].
+Qed.
+
+Lemma lookup_peq_dflt {T} (teq : T -> T -> bool) (R : T -> T -> Prop) (s1 s2 : list (nat * T)) (d : T) b :
+  (forall x y, teq x y = true -> R x y) -> R d d ->
+  SolverLemmas.peq T teq s1 s2 ->
+  R (match Analysis.lookup T s1 b with Some v => v | None => d end)
+    (match Analysis.lookup T s2 b with Some v => v | None => d end).
+Proof.
+  intros HR Hd Hp. pose proof (wpeq_bc_eqv T teq s1 s2 Hp b) as H.
+  destruct (Analysis.lookup T s1 b); destruct (Analysis.lookup T s2 b); try contradiction; [apply HR; exact H|exact Hd].
+Qed.
+
+Lemma zset_eqb_seteq x y : zset_eqb x y = true -> seteq x y.
+Proof. intros H. exact (proj1 (zset_eqb_spec x y) H). Qed.
+Lemma lset_eqb_seteq x y : lset_eqb x y = true -> seteq x y.
+Proof. intros H. exact (proj1 (lset_eqb_spec x y) H). Qed.
+Lemma sset_seteqb_seteq x y : sset_seteqb x y = true -> seteq x y.
+Proof. intros H. exact (proj1 (sset_seteqb_spec x y) H). Qed.
+
+Lemma res_addr_equiv a b fld fam n : res_equiv a b -> seteq (res_addr a fld fam n) (res_addr b fld fam n).
+Proof.
+  intros E. unfold res_addr.
+  match goal with
+  | |- seteq (match find ?q ?l1 with _ => _ end) _ =>
+      pose proof (find_fam (K := string * keyfam) (S := list (nat * sset)) (SolverLemmas.peq sset sset_seteqb)
+                    q (r_addrs a) (r_addrs b)) as H
+  end.
+  match type of H with ?A -> _ => assert (Hq : A) end.
+  { intros [[fl fm] s] [[fl' fm'] s'] Hk. cbn [fst] in Hk. inversion Hk. reflexivity. }
+  specialize (H Hq (re_addrs a b E)). revert H.
+  destruct (find _ (r_addrs a)) as [[[fl fm] s]|]; destruct (find _ (r_addrs b)) as [[[fl' fm'] s']|];
+    intros H; try contradiction; [|apply seteq_refl].
+  cbn [snd] in H. apply (lookup_peq_dflt sset_seteqb seteq s s' _ n sset_seteqb_seteq (seteq_refl _) H).
+Qed.
+
+Lemma res_types_equiv a b fam n : res_equiv a b -> seteq (res_types a fam n) (res_types b fam n).
+Proof.
+  intros E. unfold res_types.
+  match goal with
+  | |- seteq (match find ?q ?l1 with _ => _ end) _ =>
+      pose proof (find_fam (K := keyfam) (S := list (nat * list string)) (SolverLemmas.peq (list string) lset_eqb)
+                    q (r_types a) (r_types b)) as H
+  end.
+  match type of H with ?A -> _ => assert (Hq : A) end.
+  { intros [fm s] [fm' s'] Hk. cbn [fst] in Hk. subst fm'. reflexivity. }
+  specialize (H Hq (re_types a b E)). revert H.
+  destruct (find _ (r_types a)) as [[fm s]|]; destruct (find _ (r_types b)) as [[fm' s']|];
+    intros H; try contradiction; [|apply seteq_refl].
+  cbn [snd] in H. apply (lookup_peq_dflt lset_eqb seteq s s' _ n lset_eqb_seteq (seteq_refl _) H).
+Qed.
+
+Lemma res_fee_equiv a b fam n : res_equiv a b -> res_fee a fam n = res_fee b fam n.
+Proof.
+  intros E. unfold res_fee.
+  match goal with
+  | |- match find ?q ?l1 with _ => _ end = _ =>
+      pose proof (find_fam (K := keyfam) (S := list (nat * feeval)) (SolverLemmas.peq feeval feeval_eqb)
+                    q (r_fees a) (r_fees b)) as H
+  end.
+  match type of H with ?A -> _ => assert (Hq : A) end.
+  { intros [fm s] [fm' s'] Hk. cbn [fst] in Hk. subst fm'. reflexivity. }
+  specialize (H Hq (re_fees a b E)). revert H.
+  destruct (find _ (r_fees a)) as [[fm s]|]; destruct (find _ (r_fees b)) as [[fm' s']|];
+    intros H; try contradiction; [|reflexivity].
+  cbn [snd] in H.
+  apply (lookup_peq_dflt feeval_eqb eq s s' _ n (fun x y Hxy => proj1 (feeval_eqb_spec x y) Hxy) eq_refl H).
+Qed.
+
+Lemma addrval_of_equiv s s' : seteq s s' -> av_equiv (addrval_of s) (addrval_of s').
+Proof.
+  intros H. unfold addrval_of. constructor; cbn [av_any av_no av_possible].
+  - apply smem_seteq. exact H.
+  - apply smem_seteq. exact H.
+  - intros x. rewrite !filter_In. rewrite (H x). tauto.
+Qed.
+
+(* the contexts the detectors read are equal up to the domain equality, block by block and key family by key family *)
+Theorem ctx_of_equiv a b n fam : res_equiv a b -> ctx_equiv (ctx_of a n fam) (ctx_of b n fam).
+Proof.
+  intros E. unfold ctx_of. cbv zeta. rewrite (res_fee_equiv a b fam n E).
+  constructor; cbn [ctx_rekeyto ctx_closeto ctx_assetcloseto ctx_sender ctx_transaction_types ctx_max_fee
+                    ctx_max_fee_unknown ctx_group_sizes ctx_group_indices ctx_is_gtxn_context];
+    try reflexivity; try (apply addrval_of_equiv; apply res_addr_equiv; exact E).
+  - apply res_types_equiv. exact E.
+  - destruct fam; try apply seteq_refl.
+    apply (lookup_peq_dflt zset_eqb seteq _ _ _ n zset_eqb_seteq (seteq_refl _) (re_sizes a b E)).
+  - destruct fam; try apply seteq_refl.
+    apply (lookup_peq_dflt zset_eqb seteq _ _ _ n zset_eqb_seteq (seteq_refl _) (re_indices a b E)).
+Qed.
+
+Lemma forallb_seteq {A} (p q : A -> bool) l1 l2 :
+  (forall x, p x = q x) -> seteq l1 l2 -> forallb p l1 = forallb q l2.
+Proof.
+  intros Hpq Hs. destruct (forallb q l2) eqn:E.
+  - apply forallb_forall. intros x Hx. rewrite Hpq. rewrite forallb_forall in E. apply E. apply Hs. exact Hx.
+  - destruct (forallb p l1) eqn:E1; [|reflexivity].
+    rewrite forallb_forall in E1.
+    assert (H : forallb q l2 = true).
+    { apply forallb_forall. intros x Hx. rewrite <- Hpq. apply E1. apply Hs. exact Hx. }
+    congruence.
+Qed.
+
+(* validated_in_block agrees on equivalent results, for every predicate invariant under ctx_equiv *)
+Theorem validated_in_block_equiv a b checks ai n :
+  res_equiv a b -> ctx_inv checks -> validated_in_block a checks ai n = validated_in_block b checks ai n.
+Proof.
+  intros E Hc. unfold validated_in_block.
+  rewrite (Hc _ _ (ctx_of_equiv a b n KSelf E)).
+  destruct (checks (ctx_of b n KSelf)); [reflexivity|].
+  destruct ai as [i|].
+  - apply Hc. apply ctx_of_equiv. exact E.
+  - apply forallb_seteq.
+    + intros i. apply Hc. apply ctx_of_equiv. exact E.
+    + exact (ce_group_indices _ _ (ctx_of_equiv a b n KSelf E)).
+Qed.
